@@ -21,6 +21,7 @@ type specEnv struct {
 	pre     *state
 	lookup  func(string) (binding, bool)
 	phiOf   func(int, string) (binding, bool)
+	prevOf  func(string) (binding, bool)
 	pkgPath string
 }
 
@@ -653,6 +654,16 @@ func (env *specEnv) call(n *ast.CallExpr) (string, types.Type, error) {
 		n2 := *env
 		n2.cur = env.pre
 		return n2.tr(n.Args[0])
+	case "prev": // prev(x): value of loop variable x at the start of the iteration (in step clauses)
+		id, ok := n.Args[0].(*ast.Ident)
+		if !ok || env.prevOf == nil {
+			return "", nil, fmt.Errorf("prev(name) is only available in loop step clauses")
+		}
+		b, ok := env.prevOf(id.Name)
+		if !ok {
+			return "", nil, fmt.Errorf("prev(%s): not a variable of this loop", id.Name)
+		}
+		return b.term, b.typOrKind(), nil
 	case "phi": // phi(L, name): value of variable `name` at the header of loop L (its value when the loop was left)
 		if len(n.Args) != 2 || env.phiOf == nil {
 			return "", nil, fmt.Errorf("phi(loop, name) is only available in exit clauses")
@@ -992,6 +1003,10 @@ func (e *Enc) useGhostFunc(gf *GhostFunc) {
 		return
 	}
 	// defined: translate body with params bound
+	if gf.Rec {
+		// make the symbol known before translating the (recursive) body
+		e.ghostUsed[gf.Name] = true
+	}
 	fr := &frame{e: e, fn: e.root, params: map[string]binding{}}
 	env := &specEnv{fr: fr, e: e, vars: map[string]binding{}, cur: &state{regs: map[string]string{}, stale: map[string]int{}}, pkgPath: gf.PkgPath}
 	for _, p := range gf.Params {
@@ -1012,6 +1027,10 @@ func (e *Enc) useGhostFunc(gf *GhostFunc) {
 		if e.rootSpec != nil && e.rootSpec.Options["reveal:"+gf.Name] != "" {
 			e.ghostDecls = append(e.ghostDecls, fmt.Sprintf("(assert (forall (%s) (! (= %s %s) :pattern (%s))))", strings.Join(ps, " "), call, t, call))
 		}
+		return
+	}
+	if gf.Rec {
+		e.ghostDecls = append(e.ghostDecls, fmt.Sprintf("(define-fun-rec gf.%s (%s) %s %s)", gf.Name, strings.Join(ps, " "), ghostSort(gf.Result), t))
 		return
 	}
 	e.ghostDecls = append(e.ghostDecls, fmt.Sprintf("(define-fun gf.%s (%s) %s %s)", gf.Name, strings.Join(ps, " "), ghostSort(gf.Result), t))
